@@ -4,6 +4,7 @@ import (
 	"encoding/binary"
 	"fmt"
 	"testing"
+	"verifharness/peer"
 
 	tls "github.com/refraction-networking/utls"
 	"verifharness/mon"
@@ -179,7 +180,7 @@ func TestC04(t *testing.T) {
 		}
 	}
 	greaseTargets := 0
-	for _, tg := range targets {
+	for ti, tg := range targets {
 		vals := map[string]map[uint16]bool{"cipher": {}, "group": {}, "ext": {}, "version": {}}
 		hasGrease := map[string]bool{}
 		for k := 0; k < conns; k++ {
@@ -188,7 +189,12 @@ func TestC04(t *testing.T) {
 				r.Violation(map[string]string{"kind": "spec_error", "target": tg.name}, err.Error(), nil)
 				break
 			}
-			raw, _, err, _ := buildHello(&tls.Config{ServerName: "example.test", OmitEmptyPsk: true}, tls.HelloCustom, func(u *tls.UConn) error { return u.ApplyPreset(spec) })
+			gcfg := &tls.Config{ServerName: "example.test", OmitEmptyPsk: true}
+			if ti%3 == 1 {
+				// a randomness source that answers with short reads (1..8 bytes per call)
+				gcfg.Rand = peer.ChunkedRand{N: []int{1, 2, 4, 8}[(ti/3)%4]}
+			}
+			raw, _, err, _ := buildHello(gcfg, tls.HelloCustom, func(u *tls.UConn) error { return u.ApplyPreset(spec) })
 			if err != nil {
 				r.Violation(map[string]string{"kind": "build_error", "target": tg.name}, err.Error(), nil)
 				break
